@@ -969,7 +969,19 @@ LinkLayerSecondaryBalanced_handleMessage(LinkLayerSecondaryBalanced self, uint8_
     if (fcv)
     {
         if (LinkLayerSecondaryBalanced_checkFCB(self, fcb) == false)
+        {
+            /* retransmitted frame (our confirmation was lost): don't indicate again, repeat the confirmation */
+            if ((fc == LL_FC_03_USER_DATA_CONFIRMED) || (fc == LL_FC_02_TEST_FUNCTION_FOR_LINK))
+            {
+                if (self->linkLayer->linkLayerParameters->useSingleCharACK)
+                    SendSingleCharCharacter(self->linkLayer);
+                else
+                    SendFixedFrame(self->linkLayer, LL_FC_00_ACK, self->linkLayer->address, false, self->linkLayer->dir,
+                                   false, false);
+            }
+
             return;
+        }
     }
 
     switch (fc)
